@@ -1391,3 +1391,11 @@ package router
 //@     invariant [none-excluded-so-far] forall a string :: visited(a) && plainAttr(details, a) ==> !attrListed(details, a, f.blMap[a])
 //@   loop range f.wlMap
 //@     invariant [all-eligible-so-far] forall a string :: visited(a) && plainAttr(details, a) ==> attrListed(details, a, f.wlMap[a])
+
+// Leaving: after the realm action has removed the session, its testaments and
+// the on_leave meta event are published - never when the whole realm shuts
+// down or the session was ended by kill_all.
+//@ func (r *realm) onLeave
+//@   props C05 C18
+//@   requires r != nil && sess != nil
+//@   sendsite meta wamp.Message : [nothing-published-on-shutdown-or-kill-all] !shutdown && !killAll && is(m, *wamp.Publish)
